@@ -113,7 +113,16 @@ fn cmd_query(db: &Db, src: &str, describe: bool) -> String {
     let mut items = Vec::new();
     for r in anything::query(&parsed, db, options, &mut descriptions) {
         match r {
-            Ok(n) => items.push(format!("OK {} {}", rat(&n.value), unit_canon(&n.unit))),
+            Ok(n) => {
+                // every value must be displayable (C11): render it the way the binary does
+                let mut spec = anything::rational::DisplaySpec::default();
+                spec.limit = 12;
+                spec.exponent_limit = 12;
+                let _ = n.value.display(&spec).to_string();
+                let _ = n.unit.display(true).to_string();
+                let _ = n.unit.display(false).to_string();
+                items.push(format!("OK {} {}", rat(&n.value), unit_canon(&n.unit)))
+            }
             Err(e) => {
                 let range = e.range();
                 items.push(format!(
